@@ -142,6 +142,20 @@ class Expr:
         if isinstance(node, (ast.Name, ast.Attribute, ast.Subscript)):
             return self.name(node)
         if isinstance(node, ast.BoolOp):
+            # `x is not None and <uses x as a number>`  ->  match x with Some x' => ... | None => false end
+            v0 = node.values[0]
+            if (isinstance(node.op, ast.And) and isinstance(v0, ast.Compare) and len(v0.ops) == 1 and isinstance(v0.ops[0], ast.IsNot)
+                    and isinstance(v0.comparators[0], ast.Constant) and v0.comparators[0].value is None
+                    and dotted(v0.left) in self.env and self.env[dotted(v0.left)] == "optZ"):
+                n = dotted(v0.left)
+                self.free[n] = "optZ"
+                inner = Expr({**self.env, n: "Z"}, self.calls, self.atoms)
+                body = " && ".join(inner.truthy(v) for v in node.values[1:])
+                for k, t in inner.free.items():
+                    if k != n:
+                        self.free[k] = t
+                        self.env[k] = t
+                return f"(negb (is_none {n}) && (match {n} with Some {n} => ({body}) | None => false end))"
             op = " && " if isinstance(node.op, ast.And) else " || "
             return "(" + op.join(self.truthy(v) for v in node.values) + ")"
         if isinstance(node, ast.UnaryOp) and isinstance(node.op, ast.Not):
